@@ -24,6 +24,9 @@ pub struct Case20 {
     pub sep: String,
     /// 0 pipe read to the end, 1 pipe whose read end is already closed, 2 /dev/full
     pub sink: u8,
+    /// standard error is /dev/full (diagnostics cannot be written)
+    #[serde(default)]
+    pub stderr_full: bool,
 }
 
 pub struct ChildOut {
@@ -43,9 +46,19 @@ pub fn jawk_bin() -> Option<String> {
 static SPAWN_LOCK: std::sync::Mutex<()> = std::sync::Mutex::new(());
 
 pub fn spawn_jawk(bin: &str, args: &[String], input: &[u8], sink: u8) -> Result<ChildOut, String> {
+    spawn_jawk2(bin, args, input, sink, false)
+}
+
+pub fn spawn_jawk2(bin: &str, args: &[String], input: &[u8], sink: u8, stderr_full: bool) -> Result<ChildOut, String> {
     let guard = SPAWN_LOCK.lock().unwrap_or_else(|e| e.into_inner());
     let mut cmd = Command::new(bin);
-    cmd.args(args).stdin(Stdio::piped()).stderr(Stdio::piped());
+    cmd.args(args).stdin(Stdio::piped());
+    if stderr_full {
+        let f = std::fs::OpenOptions::new().write(true).open("/dev/full").map_err(|e| e.to_string())?;
+        cmd.stderr(Stdio::from(f));
+    } else {
+        cmd.stderr(Stdio::piped());
+    }
     match sink {
         0 => {
             cmd.stdout(Stdio::piped());
@@ -74,10 +87,12 @@ pub fn spawn_jawk(bin: &str, args: &[String], input: &[u8], sink: u8) -> Result<
     let mut out = Vec::new();
     let mut err = Vec::new();
     let so = child.stdout.take();
-    let mut se = child.stderr.take().unwrap();
+    let se = child.stderr.take();
     let t = std::thread::spawn(move || {
         let mut e = Vec::new();
-        let _ = se.read_to_end(&mut e);
+        if let Some(mut se) = se {
+            let _ = se.read_to_end(&mut e);
+        }
         e
     });
     if let Some(mut so) = so {
@@ -138,7 +153,9 @@ impl Check for C20Binary {
         (vec(val, 0..8), vec(gap, 9), 0u8..4, extra, prop::sample::select(vec!["\n", " ", ";", "\r\n", "--"]), prop_oneof![4 => Just(0u8), 1 => Just(1u8), 1 => Just(2u8)])
             .prop_map(|(values, mut noise, policy, (extra, invalid), sep, sink)| {
                 noise.truncate(values.len() + 1);
-                Case20 { values, noise, policy, extra, invalid, sep: sep.to_string(), sink }
+                // one stderr-policy case in four has a standard error that cannot be written
+                let stderr_full = policy == 2 && sink == 0 && !invalid && values.len() % 4 == 1;
+                Case20 { values, noise, policy, extra, invalid, sep: sep.to_string(), sink, stderr_full }
             })
             .boxed()
     }
@@ -155,10 +172,29 @@ impl Check for C20Binary {
             return CaseResult::Discard("--unique over values where jawk's = and hash disagree (outside C10's domain)".into());
         }
         let reference = run(&args, &input);
-        let child = match spawn_jawk(&bin, &args, &input, case.sink) {
+        let child = match spawn_jawk2(&bin, &args, &input, case.sink, case.stderr_full) {
             Ok(c) => c,
             Err(e) => return CaseResult::Discard(e),
         };
+        if case.stderr_full {
+            // diagnostics that cannot be written: the run has failed (exit status), and nothing of
+            // them may turn up in the data stream instead
+            let fail = |m: String| CaseResult::Fail(format!("{} [args {:?} input {} stderr=/dev/full]", m, args, esc_trunc(&input, 200)));
+            let wanted_diagnostics = !reference.stderr.is_empty();
+            if wanted_diagnostics && child.code == Some(0) {
+                return fail(format!("the diagnostics could not be written to standard error but the executable exited with status 0; stdout {}", esc_trunc(&child.stdout, 200)));
+            }
+            if !wanted_diagnostics && reference.res.is_ok() && child.code != Some(0) {
+                return fail(format!("nothing had to be written to standard error, yet the executable exited with {:?}", child.code));
+            }
+            if child.stdout.split(|c| *c == b'\n').any(|l| l.starts_with(b"error:")) {
+                return fail(format!("an error: line reached standard output: {}", esc_trunc(&child.stdout, 200)));
+            }
+            if !reference.stdout.starts_with(&child.stdout) {
+                return fail(format!("standard output {} is not a prefix of the library's {}", esc_trunc(&child.stdout, 200), esc_trunc(&reference.stdout, 200)));
+            }
+            return CaseResult::Pass(Info::new(wanted_diagnostics).class("stderr_is_dev_full").class_if(wanted_diagnostics, "failure:diagnostics_unwritable").obs(json!({"args": args.clone(), "exit": child.code})));
+        }
         let noisy = case.noise.iter().any(|g| !g.is_empty());
         let lib_ok = reference.res.is_ok();
         let sink_fails = case.sink != 0 && !reference.stdout.is_empty();
